@@ -766,7 +766,7 @@ func c03BackPatch(r *Run) {
 		r.Unk("C03.T4", key, token.NoPos, "anchor missing")
 		return
 	}
-	var wType, wLen, child, patch *ssa.Call
+	var wTag, wType, wLen, child, patch *ssa.Call
 	allInstrs(fn, func(in ssa.Instruction) {
 		c, ok := in.(*ssa.Call)
 		if !ok {
@@ -774,6 +774,8 @@ func c03BackPatch(r *Run) {
 		}
 		id := callID(&c.Call)
 		switch {
+		case id.is(ttlvPath, "ttlvWriter", "writeTag"):
+			wTag = c
 		case id.is(ttlvPath, "ttlvWriter", "writeType"):
 			wType = c
 		case id.is(ttlvPath, "ttlvWriter", "writeLength"):
@@ -832,6 +834,10 @@ func c03BackPatch(r *Run) {
 						return lin{1, 0, 4}, true
 					case dominatesInstr(wType, ld) && dominatesInstr(ld, wLen):
 						return lin{1, 0, 0}, true
+					case wTag != nil && dominatesInstr(wTag, ld) && dominatesInstr(ld, wType):
+						return lin{1, 0, -1}, true // the type byte is still to come
+					case wTag != nil && dominatesInstr(ld, wTag):
+						return lin{1, 0, -4}, true // start of the item: 3 tag bytes and the type byte are still to come (their sizes are the header clause of this rule)
 					}
 				}
 			}
